@@ -222,6 +222,8 @@ Variable cap : Z.       (* capacity of both channels (100 in the code) *)
 Variable ucfg : bool.   (* config.UntrustedCount != 0: monitorUntrustedNodes is started *)
 Variable daf : bool.    (* processUnconfirmedTxs keeps draining its channel after a processing error (the code
                            since fix 99e17c5); false: it leaves its loop (requestStop, break) as it did before *)
+Variable sdrain : bool. (* sendOutgoing keeps emptying its channel after a failed socket write (the code, both in
+                           node.go and in untrusted_node.go); false: it returns on the first failed write *)
 
 (* the Add returned; ok = the message was queued.  processBlocks returns when queueOutgoing fails *)
 Definition after_add w (t : tid) (f : nat) (ok : bool) : sw :=
@@ -247,10 +249,13 @@ Definition fail_exit w (t : tid) : sw :=
   | _ => end_body w t
   end.
 
+Definition so_after_fail (drain : bool) w : sw :=
+  if drain then set_thread (restart w) SO (TLive PTop 0) else exit_thread (restart w) SO.
+
 Definition work_step w (t : tid) (f : nat) (k : kind) : option sw :=
   match t with
   | SO =>   (* sendAsync returned; on an error restart() and keep emptying the channel *)
-      Some (set_thread (match k with KFail => restart w | _ => w end) SO (TLive PTop 0))
+      Some (match k with KFail => so_after_fail sdrain w | _ => set_thread w SO (TLive PTop 0) end)
   | PU =>   (* processUnconfirmedTx returned (or, once failed = true, the item was just dropped) *)
       match k with
       | KFail => if d_pufail (w_dat w) then Some (set_thread w PU (TLive PTop 0))
@@ -465,14 +470,14 @@ End Model.
    in a few counters next to it (the synchronisation protocol itself is the subject of C02). *)
 
 Definition scap : Z := 100.
-Definition sstep_sys := step scap false true.
-Definition sapply := apply scap false true.
+Definition sstep_sys := step scap false true true.
+Definition sapply := apply scap false true true.
 
 Definition enabled (w : sw) (a : act) : bool := match sstep_sys w a with Some _ => true | None => false end.
 
 (* candidates in scheduling order; idle loops (a goroutine at its loop head with nothing to do, the
    connect loop while the peer does not listen) and parked goroutines are left out *)
-Definition cands (listen skip_pu skip_pb in_body : bool) (w : sw) : list act :=
+Definition cands (listen skip_pu skip_pb in_body skip_so : bool) (w : sw) : list act :=
   let T := w_thr w in
   let reg (t : tid) := if spawned (tget T t) then [AReg t] else [] in
   let st := stopping w in
@@ -490,7 +495,11 @@ Definition cands (listen skip_pu skip_pb in_body : bool) (w : sw) : list act :=
    | _ => []
    end) ++
   (match t_rt T with TLive PTop _ => if st then [AStep RT KEnd 0] else [] | TLive _ _ => [AStep RT KEnd 0] | _ => [] end) ++
-  (match t_so T with TLive _ _ => [AStep SO KEnd 0] | _ => [] end) ++
+  (match t_so T with
+   | TLive PWork _ => if skip_so then [] else [AStep SO KEnd 0]    (* parked inside the socket write *)
+   | TLive _ _ => [AStep SO KEnd 0]
+   | _ => []
+   end) ++
   (match t_pb T with
    | TLive PTop _ => if st then [AStep PB KEnd 0] else []
    | TLive PWork _ => []
@@ -504,14 +513,14 @@ Definition cands (listen skip_pu skip_pb in_body : bool) (w : sw) : list act :=
    end) ++
   (match t_cd T with TLive PTop _ => if st then [AStep CD KEnd 0] else [] | TLive _ _ => [AStep CD KEnd 0] | _ => [] end).
 
-Definition pick (listen skip_pu skip_pb in_body : bool) (w : sw) : option act :=
-  List.find (enabled w) (cands listen skip_pu skip_pb in_body w).
+Definition pick (listen skip_pu skip_pb in_body skip_so : bool) (w : sw) : option act :=
+  List.find (enabled w) (cands listen skip_pu skip_pb in_body skip_so w).
 
-Fixpoint settle (fuel : nat) (listen skip_pu skip_pb in_body : bool) (w : sw) : sw :=
+Fixpoint settle (fuel : nat) (listen skip_pu skip_pb in_body skip_so : bool) (w : sw) : sw :=
   match fuel with
   | O => w
-  | S f => match pick listen skip_pu skip_pb in_body w with
-           | Some a => settle f listen skip_pu skip_pb in_body (sapply w a)
+  | S f => match pick listen skip_pu skip_pb in_body skip_so w with
+           | Some a => settle f listen skip_pu skip_pb in_body skip_so (sapply w a)
            | None => w
            end
   end.
@@ -540,9 +549,9 @@ Definition with_w (s : scn) (w : sw) : scn :=
   Scn w (s_listen s) (s_acc s) (s_popen s) (s_base s) (s_sent s) (s_served s) (s_tip s) (s_ready s) (s_unconf s)
       (s_peers s) (s_hold s) (s_held s) (s_ann s) (s_stopcalls s).
 
-Definition ssettle (s : scn) (w : sw) : sw := settle 600 (s_listen s) (s_held s =? 1) (s_held s =? 2) false w.
+Definition ssettle (s : scn) (w : sw) : sw := settle 600 (s_listen s) (s_held s =? 1) (s_held s =? 2) false false w.
 (* while monitorIncoming is inside the body that the scenario scripts *)
-Definition bsettle (s : scn) (w : sw) : sw := settle 600 (s_listen s) (s_held s =? 1) (s_held s =? 2) true w.
+Definition bsettle (s : scn) (w : sw) : sw := settle 600 (s_listen s) (s_held s =? 1) (s_held s =? 2) true false w.
 
 (* Stop has returned when it found stopped = true: remember the handler invocations so far *)
 Definition note_stop (s : scn) : scn :=
@@ -573,7 +582,7 @@ Definition deliver (s : scn) (w : sw) (script : list kind) : sw :=
 Inductive sop :=
 | SStart | SListen | SUnlisten
 | SAccept | SVersion | SHeaders (n : Z) | SBlocks (k : Z) | SSync | STx (t : Z) (rel : bool) | SBurst (n : Z)
-| SPing | SAddr (n : Z) | SClose | SSilence | SAge | SWaitRestart
+| SPing | SAddr (n : Z) | SClose | SCloseStop | SSilence | SAge | SWaitRestart
 | SHold (k : Z) | SRelease (e : bool)
 | SStop | SStopAsync | SStopWait | SQuiet | SStored | SAnnounced | SCounts | SDrain | SSleep.
 
@@ -687,6 +696,18 @@ Definition sstep (s : scn) (o : sop) : scn * obs :=
       let s1 := Scn w1 (s_listen s) (s_acc s) false (s_base s) (s_sent s) (s_served s) (s_tip s) false (s_unconf s)
                     (s_peers s) (s_hold s) (s_held s) (s_ann s) (s_stopcalls s) in
       fin (with_w s1 (ssettle s1 w1)) [OK]
+  | SCloseStop =>
+      (* the peer closes / resets; the application calls Stop exactly when the run loop is inside the
+         shutdown that precedes the reconnect (restart requested, connection already closed by Run) *)
+      if s_popen s && (w_gen w =? s_acc s) then
+        let w1 := sapply (sapply w APeerClose) (AStep MI KEnd 0) in        (* the read fails: restart() *)
+        let w2 := sapply (sapply w1 (ARun true)) (ARun true) in            (* "Stopping"; connection closed *)
+        let hit := needs w2 && stopping w2 && match w_conn w2 with CNone => true | _ => false end in
+        let s1 := Scn w2 (s_listen s) (s_acc s) false (s_base s) (s_sent s) (s_served s) (s_tip s) false (s_unconf s)
+                      (s_peers s) (s_hold s) (s_held s) (s_ann s) (s_stopcalls s) in
+        let w3 := ssettle s1 (sapply (sapply w2 AStopFlag) AStopReq) in
+        fin_stop (with_w s1 w3) [OK; b2z hit; b2z (stopped w3); b2z (stopped w3); b2z (w_gen w <? w_gen w3)]
+      else fin s [OK; 0; 0; 0; 0]
   | SSilence => fin s [OK]
   | SAge =>
       (* the clock passes the request time-outs: monitorRequestTimeouts restarts unless the node is in sync *)
@@ -749,6 +770,7 @@ Definition srun (ops : list sop) : list obs := srun_from scn_init ops.
    904 a height was announced twice, or a height was skipped (also across a reconnect)
    905 Stop returned while a handler callback was still being held
    906 after a reconnect the node did not resume from its tip (version height / locator)
+   907 the node connected again after Stop was requested
    897 malformed trace *)
 Fixpoint contiguous_from (h : Z) (l : list Z) : bool :=
   match l with
@@ -767,6 +789,9 @@ Fixpoint c19_monitor_from (i : Z) (held : bool) (tip : Z) (ops : list sop) (tr :
       | SRelease _, _ => next false tip
       | SStop, [_; ret; _] => if (ret =? 0) && negb held then Some (i, [902]) else next held tip
       | SStopWait, [_; ret; _] => if (ret =? 0) && negb held then Some (i, [902]) else next held tip
+      | SCloseStop, [_; hit; ret; _; reconn] =>
+          if (hit =? 1) && (reconn =? 1) then Some (i, [907])
+          else if (hit =? 1) && (ret =? 0) && negb held then Some (i, [902]) else next held tip
       | SStopAsync, [_; ret] => if (ret =? 1) && held then Some (i, [905]) else next held tip
       | SQuiet, [_; calls; inflight] =>
           if (0 <? calls) || (0 <? inflight) && (0 <=? calls) then Some (i, [901]) else next held tip
@@ -783,3 +808,71 @@ Fixpoint c19_monitor_from (i : Z) (held : bool) (tip : Z) (ops : list sop) (tr :
   | _, _ => Some (i, [897])
   end.
 Definition c19_monitor : checker sop := fun ops tr => c19_monitor_from 0 false 0 ops tr.
+
+
+(* ================================================================================================ *)
+(* The untrusted node (untrusted_node.go): UntrustedNode.Run is the same phased protocol in small -
+   its monitorIncoming and monitorRequestTimeouts are the incoming goroutines, its sendOutgoing (the
+   same loop as Node.sendOutgoing: after a failed write it keeps emptying the queue) is the processing
+   goroutine, its own 100-slot outgoing queue is the channel, Stop only sets its stopping flag.  The
+   scenarios of harness component "untrusted" (a real UntrustedNode against a peer that never reads and
+   keeps pinging) are therefore run on the same transition system: MI, RT, SO and the outgoing channel
+   are the untrusted node's; the other goroutines have nothing to do and leave at the stop.
+   "Run returned" is the run loop having finished. *)
+Inductive uop := UStart | UFill | UReset | UStop | UCounts | UDrain.
+
+Record uscn := UScn { u_w : sw; u_parked : bool }.   (* parked: sendOutgoing is blocked in the socket write *)
+
+Definition usettle (u : uscn) (w : sw) : sw := settle 900 false false false false (u_parked u) w.
+Definition ubsettle (u : uscn) (w : sw) : sw := settle 900 false false false true (u_parked u) w.
+Definition udeliver (u : uscn) (w : sw) (k : kind) : sw :=
+  let w1 := ubsettle u (sapply w APeerMsg) in
+  usettle u (ubsettle u (sapply w1 (AStep MI k 0))).
+Definition ulive (s : tstate) : Z := match s with TLive _ _ => 1 | _ => 0 end.
+
+Definition ustep (u : uscn) (o : uop) : uscn * obs :=
+  let w := u_w u in
+  match o with
+  | UStart =>
+      (* connect (the dial succeeds once), goroutines start; version exchange: verack + header request queued and written *)
+      let w0 := settle 900 true false false false false w in
+      let w1 := udeliver u w0 KOut in
+      (UScn w1 false, [OK; b2z (0 <? w_gen w1); 1])
+  | UFill =>
+      (* the peer does not read: the first pong's write blocks; pings until the queue is full *)
+      let u1 := UScn w true in
+      let w1 := iter 102 (fun w0 => udeliver u1 w0 KOut) w in
+      (UScn w1 true, [OK; b2z ((scap <=? o_len (w_ch w1)) && at_send COut (t_mi (w_thr w1)))])
+  | UReset =>
+      (* the peer resets the connection: the blocked write fails; the sender goes on emptying the queue *)
+      let w1 := if u_parked u then sapply w (AStep SO KFail 0) else w in
+      let u1 := UScn w1 false in
+      (UScn (usettle u1 (sapply w1 APeerClose)) false, [OK])
+  | UStop =>
+      let w1 := usettle u (sapply (sapply w AStopFlag) AStopReq) in      (* stopping; Run closes the connection *)
+      let w2 := if u_parked u then sapply w1 (AStep SO KFail 0) else w1 in   (* ... which fails the blocked write *)
+      let u1 := UScn w2 false in
+      let w3 := usettle u1 w2 in
+      (UScn w3 false, [OK; b2z (stopped w3)])
+  | UCounts => (u, [OK; ulive (t_mi (w_thr w)) + ulive (t_rt (w_thr w)); ulive (t_so (w_thr w))])
+  | UDrain =>
+      let had := 0 <? o_len (w_ch w) in
+      (UScn (usettle u (set_ch_len w COut 0)) (u_parked u), [OK; b2z had])
+  end.
+
+Fixpoint urun_from (u : uscn) (ops : list uop) : list obs :=
+  match ops with
+  | [] => []
+  | o :: ops' => let '(u1, ob) := ustep u o in ob :: urun_from u1 ops'
+  end.
+Definition urun (ops : list uop) : list obs := urun_from (UScn sw_init false) ops.
+
+(* 902 the untrusted node's Run did not return within the bound after its Stop *)
+Fixpoint c19u_monitor_from (i : Z) (ops : list uop) (tr : list obs) : option (Z * obs) :=
+  match ops, tr with
+  | [], [] => None
+  | UStop :: ops', [_; ret] :: tr' => if ret =? 0 then Some (i, [902]) else c19u_monitor_from (i + 1) ops' tr'
+  | _ :: ops', _ :: tr' => c19u_monitor_from (i + 1) ops' tr'
+  | _, _ => Some (i, [897])
+  end.
+Definition c19u_monitor : checker uop := fun ops tr => c19u_monitor_from 0 ops tr.
